@@ -33,9 +33,11 @@ func (core *JApiCore) processContext(d *directive.Directive, root *[]*directive.
 						d.String(),
 					))
 				}
-				*root = append(*root, d)
-				core.currentContextDirective = d
-				return nil
+				// A method with its own path is not a child of the URL it follows but
+				// its sibling: it belongs where the URL belongs (the top level, or the
+				// macro the URL is written in).
+				core.currentContextDirective = core.currentContextDirective.Parent
+				continue
 			}
 
 			d.Parent = core.currentContextDirective
